@@ -26,12 +26,12 @@ RULE = ("documents with 1-5 operations and 0-4+ fragments in random definition o
         "(one module per operation, in order), with each existing name (exactly that module); derive mode with the exact name, a "
         "name matching only under normalization = rust (with and without it), a name matching nothing, an empty document. "
         "QUERY must equal the file text byte for byte, OPERATION_NAME the source name, and each module's ResponseData / Variables "
-        "keys those of its own operation. A subset is compiled: body members and real derives (match / no match). Non-trivial = "
+        "keys those of its own operation. Same-named documents one directory apart are reached in one process through `..` / `.` / `//` spellings of their paths: each QUERY must be the file the spelling resolves to. A subset is compiled: body members and real derives (match / no match). Non-trivial = "
         "document with >= 2 operations or a comment / CR / string literal; distinct by (document text, mode, name)")
 
 OP_NAMES = ["Op%d", "GetThing%d", "getThing%d", "get_thing_%d", "Q%dx", "UPPER_%d", "x%d", "My_Query%d", "HTTPQuery%d"]
 FLOOR = {"documents": 40, "query-bytes-compared": 150, "mode:all-operations": 40, "mode:selected-operation": 60, "mode:derive-exact": 40, "mode:derive-normalized": 10,
-         "mode:derive-no-match": 40, "mode:derive-needs-normalization": 10, "compiled-bodies": 10, "real-derives-match": 5, "real-derives-no-match": 5, "with-comment-or-cr": 20, "mode:derive-colliding-names": 3}
+         "mode:derive-no-match": 40, "mode:derive-needs-normalization": 10, "compiled-bodies": 10, "real-derives-match": 5, "real-derives-no-match": 5, "path-spellings": 20, "with-comment-or-cr": 20, "mode:derive-colliding-names": 3}
 
 
 def gen_doc(schema, rng, n_ops):
@@ -94,6 +94,45 @@ def module_view(inspect):
             mods[it["path"][0]][it["name"] + "_flatten"] = len([f for f in it["fields"] if f["serde"].get("flatten")])
     structs = [it["name"] for it in inspect.get("items", []) if it["kind"] == "struct" and not it["path"]]
     return mods, order, structs
+
+
+def path_spellings(run, work):
+    """documents with the same base name (and the same operation name) one directory apart, reached in one process through
+    paths spelt with `..`, `.` and doubled slashes: each call's QUERY must be the text of the file the operating system
+    resolves that spelling to, and its ResponseData that document's"""
+    from ..factory import run_gendrv
+    root = os.path.join(work, "paths")
+    os.makedirs(os.path.join(root, "v2", "v3"))
+    sp = os.path.join(root, "schema.graphql")
+    open(sp, "w").write("type Query { a: Int b: Int c: String }\n")
+    texts = {"lookup.graphql": "query Lookup { a }\n", "v2/lookup.graphql": "# second\nquery Lookup { b }\n", "v2/v3/lookup.graphql": "query Lookup {\n  c\n}\n"}
+    for rel, t in texts.items():
+        open(os.path.join(root, rel), "w").write(t)
+    spellings = ["v2/../lookup.graphql", "v2/lookup.graphql", "./v2/lookup.graphql", "v2/v3/../lookup.graphql", "v2/v3/../../lookup.graphql", "/lookup.graphql",
+                 "v2/v3/lookup.graphql", "v2/./v3/../v3/lookup.graphql", "lookup.graphql", "v2//lookup.graphql", "v2/v3/../../v2/lookup.graphql"]
+    seq = list(spellings) + list(spellings)
+    run.sub_rng("paths").shuffle(seq)
+    reqs = [{"id": "ps%d" % i, "schema_path": sp, "query_path": root + "/" + spl, "options": {"mode": "cli"}, "want": ["inspect"]} for i, spl in enumerate(seq)]
+    for req, resp, spl in zip(reqs, run_gendrv(reqs), seq):
+        run.evaluated()
+        run.count("path-spellings")
+        real = os.path.realpath(req["query_path"])
+        want = open(real).read()
+        case = {"id": req["id"], "corpus": "clean", "mode": "path-spelling", "spelling": spl, "sequence": seq, "files": texts, "doc_text": want, "schema_text": "type Query { a: Int b: Int c: String }\n", "schema_ext": "graphql",
+                "options": {"mode": "cli"}}
+        if resp["outcome"] != "ok":
+            run.violation(case, "generation-%s for the spelling %s: %s" % (resp["outcome"], spl, (resp.get("message") or "")[:160]))
+            continue
+        mods, order, _ = module_view(resp["inspect"])
+        mv = mods.get(order[0], {}) if order else {}
+        field = want.split("{")[1].split("}")[0].strip()
+        if mv.get("QUERY") != want:
+            run.violation(case, "QUERY of %s is not the text of %s (the file the path resolves to) but %r" % (spl, os.path.relpath(real, root), (mv.get("QUERY") or "")[:60]))
+        elif mv.get("ResponseData") != [field]:
+            run.violation(case, "ResponseData of %s has keys %s, its document selects %s" % (spl, mv.get("ResponseData"), field))
+        else:
+            run.held()
+            run.nontrivial("path-spelling", spl)
 
 
 def main(run):
@@ -257,6 +296,7 @@ def main(run):
                 run.nontrivial(m["text"], mode, m["options"].get("struct_name") or m["options"].get("operation_name"))
             if run.held_n % 150 == 1:
                 run.sample({"mode": mode, "options": m["options"], "document_text": m["text"][:400], "outcome": resp["outcome"], "message": (resp.get("message") or "")[:200]}, limit=6)
+    path_spellings(run, work)
     compiled_part(run, compiled, work)
     shutil.rmtree(work, ignore_errors=True)
     return run.finish(floor=FLOOR if run.tier == "quick" else {k: v * 10 for k, v in FLOOR.items()})
